@@ -359,7 +359,11 @@ func parseVarRef(ps ParseState) frt.Tuple2[ParseState, Expr] {
 			return frt.Pipe(frt.Pipe(frt.Pipe(psTypeVarGen(ps2), (func(_r0 func() TypeVar) VarRef { return vfac(emptyFtps(), _r0) })), New_Expr_EVarRef), (func(_r0 Expr) frt.Tuple2[ParseState, Expr] { return parseFAAfterDot(ps2, _r0) }))
 		}), (func() frt.Tuple2[ParseState, Expr] {
 			ps3, fullName := frt.Destr2(parseFullName(ps))
-			ps4, stlist := frt.Destr2(mightParseSpecifiedTypeList(parseType, ps3))
+			ps4, stlist := frt.Destr2(frt.IfElse(psCurIsNeighborOfPrev(ps3), (func() frt.Tuple2[ParseState, []FType] {
+				return mightParseSpecifiedTypeList(parseType, ps3)
+			}), (func() frt.Tuple2[ParseState, []FType] {
+				return frt.Pipe(emptyFtps(), (func(_r0 []FType) frt.Tuple2[ParseState, []FType] { return PairL(ps3, _r0) }))
+			})))
 			return frt.Pipe(refVar(fullName, stlist, ps4), (func(_r0 Expr) frt.Tuple2[ParseState, Expr] { return PairL(ps4, _r0) }))
 		}))
 	}))
